@@ -28,6 +28,7 @@ const (
 func checkC20(c *core.Ctx, r *core.Report) {
 	r.Explanation = "C20 (alert state and saved objects follow their definitions), structural clauses only. Alert evaluation: " +
 		"(1) ORDERTABLE — every arm of evaluateConditions means exactly `value <op> threshold` for its condition constant, every condition constant has an arm, and every evaluator decides through it; the operands are identified by role on the SSA form, not by position: the threshold is what is, on every backward path and through every caller, the configured Value of the alert (or minion search), the condition dispatched on is its configured Condition, the value is the remaining number (so the three may be separate parameters in any order or fields of a parameter struct); " +
+		"(1b) EVERYCOL — the column names by which an evaluator looks a row's values up are the result's measure columns or an unconditional copy of them (a building loop that appends on one path and adds nothing on another is a filter: the dropped column is never compared); " +
 		"(2) STATE — in handleAlertCondition the state handed to updateAlertStateAndCreateAlertHistory is Normal exactly on the not-matched edge, Firing exactly where shouldUpdateAlertStateToFiring answered true and Pending where it answered false; a notification is attempted exactly for Firing and Normal; the notification flag stored is the notifier's own answer; the state and one history row are written on every non-error path; " +
 		"(3) WINDOW — shouldUpdateAlertStateToFiring asks for the newest EvalWindow/EvalInterval−1 history rows, answers true only when N==1 or when at least N−1 rows came back and the scan over all of them met no row that is not Pending/Firing; the Limit it passes is provably non-zero (the store substitutes a paging default for 0); " +
 		"(4) NOTIFY — shouldSendNotification answers true only after both the cool-down and the silence tests passed, Normal after Normal/Inactive is suppressed, the send calls are guarded by its answer, both period tests mean `now − lastSent >= period`, and the notification row's last-sent time and state are written only where the notifier reported a send. " +
